@@ -354,7 +354,20 @@ def _count_data(c, which, fit=None):
     A = np.array(c[which], dtype=float)
     if c["fmt"] == "dense":
         return A, {}
-    return (sp.csr_matrix(A) if c["fmt"] == "csr" else sp.csc_matrix(A)), {}
+    if c["fmt"] == "csc-unsorted":
+        X = sp.csc_matrix(A)
+        for j in range(A.shape[1]):
+            lo, hi = X.indptr[j], X.indptr[j + 1]
+            X.indices[lo:hi] = X.indices[lo:hi][::-1].copy()
+            X.data[lo:hi] = X.data[lo:hi][::-1].copy()
+        X.has_sorted_indices = False
+        return X, {}
+    if c["fmt"] == "csr-explicit-zeros":
+        X = sp.csr_matrix(A)
+        if X.nnz:
+            X.data[0] = 0.0
+        return X, {}
+    return {"csr": sp.csr_matrix, "csc": sp.csc_matrix, "coo": sp.coo_matrix, "lil": sp.lil_matrix}[c["fmt"]](A), {}
 
 
 @entry("InfoWeight", tol=1e-10)
@@ -374,6 +387,8 @@ class ZRowDenoise:
 
     @staticmethod
     def data(c, which, fit=None):
+        if c.get("fmt") == "csr-explicit-zeros":
+            return _count_data(c, which, fit)
         A = np.array(c[which], dtype=float)
         return sp.csr_matrix(A), {}
 
